@@ -30,7 +30,7 @@ Inputs == IF Kinds \cap {"tree", "treem"} # {} THEN {s \in Strs(MaxLen) : BalFro
 (* "W" for a four-byte one                                                *)
 (* "G" = e + combining acute (3 bytes), "U" = a flag of two regional indicators (8 bytes): one grapheme cluster each *)
 Width(kind, t) == IF kind \in {"str", "graph", "static", "staticc"}
-                  THEN (CASE t = "E" -> 2 [] t = "W" -> 4 [] t = "X" -> 2 [] t \in {"L", "P", "G"} -> 3 [] t = "U" -> (IF kind = "graph" THEN 8 ELSE 3) [] OTHER -> 1) ELSE 1
+                  THEN (CASE t \in {"E", "Z"} -> 2 [] t = "W" -> 4 [] t = "X" -> 2 [] t \in {"L", "P", "G"} -> 3 [] t = "U" -> (IF kind = "graph" THEN 8 ELSE 3) [] OTHER -> 1) ELSE 1
 RECURSIVE OffsFrom(_, _, _)
 OffsFrom(kind, s, o) == IF s = <<>> THEN <<o>> ELSE <<o>> \o OffsFrom(kind, Tail(s), o + Width(kind, Head(s)))
 Offs(kind, s) == OffsFrom(kind, s, 0)
@@ -262,6 +262,17 @@ RcvNTemplates ==
   {<<"recover", x, s>> : x \in NDInner, s \in NDStrats}
   \cup {<<"then", <<"recover", x, s>>, RestCap>> : x \in NDInner, s \in NDStrats}
   \cup {<<"collect", <<"rep", <<"recover", x, s>>, 0, Inf>>, "vec">> : x \in NDInner, s \in NDStrats}
+(* C05 under recovery: parsers that can succeed while emitting, wrapped in every strategy, retried, abandoned *)
+EmitA == {<<"then", <<"validate", <<"any">>, "1", "nfa">>, J("b")>>, <<"validate", JJ("a", "b"), "2", "F">>,
+          <<"then", <<"validate", <<"any">>, "1", "F">>, <<"then", <<"validate", <<"any">>, "2", "nfa">>, J("!")>>>>}
+EmitStrats == {<<"retry", <<"any">>, <<"end">>>>, <<"retry", <<"any">>, J("!")>>, <<"skipuntil", <<"any">>, J("!")>>,
+               <<"via", <<"validate", <<"any">>, "3", "F">>>>, <<"via", <<"to", <<"any">>, "r">>>>}
+RcvETemplates ==
+  {<<"recover", a, s>> : a \in EmitA, s \in EmitStrats}
+  \cup {<<"then", <<"recover", a, s>>, RestCap>> : a \in EmitA, s \in EmitStrats}
+  \cup {<<"collect", <<"rep", <<"recover", a, s>>, 0, Inf>>, "vec">> : a \in EmitA, s \in {<<"retry", <<"any">>, J("!")>>, <<"skipuntil", <<"any">>, J("!")>>}}
+  \cup {<<"or", <<"then", <<"recover", a, s>>, J("!")>>, RestCap>> : a \in EmitA, s \in EmitStrats}
+  \cup {<<"andis", <<"recover", a, s>>, RestCap>> : a \in EmitA, s \in EmitStrats}
 (* decorations around parsers that succeed while leaving a pending error behind, followed by  *)
 (* a later failure; an earlier alternative that failed further ahead (C17)                     *)
 LInner == {<<"then", J("a"), <<"ornot", J("b")>>>>, <<"then", J("a"), <<"or", J("b"), J("c")>>>>,
@@ -318,12 +329,12 @@ GapTemplates ==
   \cup {<<"collect", <<"rep", <<"then", J("a"), <<"tospan", <<"ornot", J("b")>>>>>>, 0, Inf>>, "vec">>,
         <<"foldlw", <<"any">>, <<"rep", <<"then", J("a"), <<"tospan", <<"empty">>>>>>, 0, Inf>>, "g">>,
         <<"foldrw", <<"rep", J("a"), 0, Inf>>, <<"tospan", <<"empty">>>>, "g">>}
-Templates(fam) == CASE fam = "memoT" -> MemoTemplates [] fam = "gapT" -> GapTemplates [] fam = "stat" -> StatGrammars [] fam = "rcvN" -> RcvNTemplates [] fam = "txt" -> TxtTemplates [] fam = "txtc" -> TxtCTemplates
+Templates(fam) == CASE fam = "memoT" -> MemoTemplates [] fam = "gapT" -> GapTemplates [] fam = "rcvE" -> RcvETemplates [] fam = "stat" -> StatGrammars [] fam = "rcvN" -> RcvNTemplates [] fam = "txt" -> TxtTemplates [] fam = "txtc" -> TxtCTemplates
                     \* byte inputs have no text::newline; the radix family looks at int / digits only
                     [] fam = "txtb" -> {g \in TxtTemplates \cup TxtCTemplates : ~HasOp(g, {"newline"}) /\ g \notin {TUKw(<<"E", "a">>), <<"then", TUKw(<<"E", "a">>), RestCap>>}}
                     [] fam = "txtr" -> {<<"then", tp, RestCap>> : tp \in {TDigits(r) : r \in {"2", "8", "10", "16", "36"}} \cup {TInt(r) : r \in {"2", "8", "10", "16", "36"}}} [] fam = "drpT" -> DrpTemplates [] fam = "rcvT" -> RcvTemplates [] fam = "lblT" -> LblTemplates
                     [] fam = "pratt" -> PrattTemplates [] fam = "rec" -> RecTemplates [] fam = "lrec" -> LRecTemplates [] fam = "repT" -> RepTemplates
-TemplateFams == {"rec", "lrec", "repT", "pratt", "memoT", "rcvT", "lblT", "drpT", "txt", "txtc", "txtb", "txtr", "gapT", "rcvN", "stat"}
+TemplateFams == {"rec", "lrec", "repT", "pratt", "memoT", "rcvT", "lblT", "drpT", "txt", "txtc", "txtb", "txtr", "gapT", "rcvN", "stat", "rcvE"}
 
 Grammars == IF Fam \in TemplateFams THEN {g \in Templates(Fam) : Fam = "lrec" \/ WF(g)}
             ELSE {g \in UNION {GSz(Fam, n) : n \in 1..MaxSize} : WF(g)}
